@@ -24,6 +24,12 @@ FAMILIES = {
     "window": dict(seed=118, n=3000, gen="WindowGen", opts={"null_p": 0.25, "boolops": False, "like": False, "subq": False, "dom": 3}),
     "topk": dict(seed=119, n=2500, opts={**OFF, "joins": False, "boolops": False, "order_p": 1.0, "max_rows": 9, "tables": 1, "null_p": 0.2, "dom": 2,
                                          "types": ["int", "int", "dbl", "str", "date"], "limit_p": 0.9, "offset_p": 0.35, "min_order_keys": 2, "const_atoms": False, "where_p": 0.25, "distinct_order_keys": True, "cols": 3}),
+    "optshapes2": dict(seed=120, n=1500, gen="Shapes2", opts={"only_shapes": ["pjk_skew"]}),
+    "distshapes": dict(seed=121, n=1500, gen="Shapes2", opts={"only_shapes": ["having_topn", "topn_offset", "agg_wide"]}),
+    "subq2": dict(seed=122, n=1500, gen="Shapes2", opts={"only_shapes": ["corr_exists_noneq", "corr_exists_or"]}),
+    "cte2": dict(seed=123, n=1500, gen="Shapes2", opts={"only_shapes": ["cte_multi", "cte_semi"]}),
+    "setop3": dict(seed=124, n=1500, gen="Shapes2", opts={"only_shapes": ["setop_chain"]}),
+    "aggwide": dict(seed=125, n=1000, gen="Shapes2", opts={"only_shapes": ["agg_wide"]}),
     "cte": dict(seed=108, n=2000, opts={**OFF, "cte": True, "derived": True, "cte_p": 1.0, "boolops": False, "group": True}),
 }
 
